@@ -526,10 +526,9 @@ func runC17TcpSizes(r *Run) {
 			}
 		}
 		if size <= 12 {
-			// a frame announcing 12 bytes (a bare header) is refused by the frame reader as
-			// "too small": recorded, not judged here (see the level note of the property)
+			// a bare 12-byte header (e.g. FORMERR / REFUSED without a question) is a reply like any other;
+			// the frame reader refused it until F18 was repaired
 			r.Count("tcpsize:12->" + what)
-			continue
 		}
 		nf := r.meta.Dist["ORACLE-FAIL"]
 		if what != "tcp" {
